@@ -504,19 +504,13 @@ def runGpsdSetup (req chunks data : String) : String :=
   let name : Option String := if req == "-" then none else some (String.mk ((parseHex req).map Char.ofNat))
   let parseLineTok (l : String) : Ubx.Gpsd.Line :=
     if l == "X" || l == "B" || l == "b" then .notJson else if l == "D" then .tooDeep else .value (parseJ (l.splitOn " ")).1
-  let rec go (st : Ubx.Gpsd.State) : List String → Except Exc (Option Ubx.Gpsd.State)
-    | [] => .ok none
-    | c :: rest =>
-      let ch : Ubx.Gpsd.Chunk := if c == "U" then .undecodable else .lines (if c.isEmpty then [] else (c.splitOn ";").map parseLineTok)
-      match Ubx.Gpsd.parseChunk st ch with
-      | .error e => .error e
-      | .ok st' => if st'.enabled then .ok (some st') else go st' rest
-  match go (Ubx.Gpsd.State.init name) (chunks.splitOn "/") with
+  let toChunk (c : String) : Ubx.Gpsd.Chunk :=
+    if c == "U" then .undecodable else .lines (if c.isEmpty then [] else (c.splitOn ";").map parseLineTok)
+  match Ubx.Gpsd.setup name ((chunks.splitOn "/").map toChunk) with
   | .error e => "EXC:" ++ showExc e
   | .ok none => "not-ready"
-  | .ok (some st) =>
-      let dev := st.selected.getD "None"
-      s!"selected={dev} cmd={toHex (Ubx.Gpsd.command (dev.toList.map Char.toNat) (parseHex data))}"
+  | .ok (some (st, hdr)) =>
+      s!"selected={st.selected.getD "None"} cmd={toHex (Ubx.Gpsd.commandAfterSetup hdr (parseHex data))}"
 
 /-- `frame|cls|id|<payload hex>` → to_bytes() twice; `framegen|cls|id|len|seed|mode` the same on a generated payload -/
 def runFrame (c i pl : String) : String :=
